@@ -150,6 +150,15 @@ def build(c, o, nrows=None):
         cols = o["order"]
     elif gpos == "last":
         cols = dcols + gcols
+    elif gpos == "split":
+        # group columns interleaved with data columns (removed columns are not adjacent)
+        cols = []
+        g, dd = list(gcols), list(dcols)
+        while g or dd:
+            if g:
+                cols.append(g.pop(0))
+            if dd:
+                cols.append(dd.pop(0))
     elif gpos == "middle":
         h2 = max(1, len(dcols) // 2)
         cols = dcols[:h2] + gcols + dcols[h2:]
